@@ -13,13 +13,15 @@ FIELD_NAMES = ['type', 'memo', 'code']
 FIELD_VALUES = ['ACH', 'WIRE', 'card', 'PROJ:ABC1 x', '', 'Fee 12']
 CATS = [('Food', 'Delivery'), ('Food', ''), ('Transport', 'Rideshare'), ('Shopping', 'Online'), ('Subscriptions', 'Streaming'),
         ('Income', 'Salary'), ('Bills', ''), ('Transfers', 'Internal')]
-STATIC_TAGS = ['business', 'Recurring', 'TRAVEL', 'income', 'transfer', 'x y', 'large']
+STATIC_TAGS = ['business', 'Recurring', 'TRAVEL', 'income', 'transfer', 'x y', 'large', "mother's day", 'say "hi', "5 o'clock", 'a:b']
 
 
 def gen_txn(r):
     toks = r.sample(MERCHANT_TOKENS, r.choice([1, 2, 2, 3]))
     if r.random() < 0.6:
         toks += r.sample(NOISE, r.choice([1, 2]))
+    if r.random() < 0.08:
+        toks.insert(r.randint(0, len(toks)), r.choice(["JOE'S", "O'HARE", "MACY'S"]))      # the other quote character inside a pattern literal
     desc = ' '.join(toks)
     if r.random() < 0.15:
         desc = desc.lower()
@@ -142,6 +144,8 @@ def gen_rules_file(r, txn, n=None, force_ties=False, dup_names=False, let_twins=
         variables['is_q1'] = 'month <= 3'
     if r.random() < 0.25:
         variables['size_lbl'] = r.choice(['"large" if amount >= 500 else "small"', 'lowercase(source)', '"q" + "1" if month <= 3 else "later"'])   # used from tags only
+    if r.random() < 0.25:
+        variables['has_memo'] = r.choice(['contains(field.memo, "PROJ")', 'field.type == "ACH"', 'len(field.code) > 0'])   # undefined where the column is missing
     transforms = []
     if r.random() < 0.25:
         transforms.append(('field.description', r.choice([
@@ -165,6 +169,8 @@ def gen_rules_file(r, txn, n=None, force_ties=False, dup_names=False, let_twins=
             m = shared_expr
         if shared_expr is None:
             shared_expr = m
+        if 'has_memo' in variables and r.random() < 0.4:
+            m = r.choice([f'not has_memo and {m}', f'has_memo or {m}', f'{m} and not has_memo', f'not (has_memo and {m})'])
         rule = {'name': name, 'match': m}
         if not tag_only:
             rule['category'] = cat[0]
@@ -179,7 +185,7 @@ def gen_rules_file(r, txn, n=None, force_ties=False, dup_names=False, let_twins=
         if r.random() < 0.3:
             rule['merchant'] = r.choice(['Uber', 'Amazon', 'Some Shop', name.upper()])
         if r.random() < 0.25:
-            rule['priority'] = r.choice([10, 50, 60, 100, -5])
+            rule['priority'] = r.choice([10, 50, 60, 100, -5, 0, 0, 1])
         if r.random() < 0.15:
             rule['lets'] = [('big', 'amount > 100'), ('lbl', 'lowercase(description)')][:r.choice([1, 2])]
             if r.random() < 0.5:
